@@ -458,7 +458,7 @@ theorem ipmStep_sim (t : Nat) (e : IEv) {m l} (hr : RIpm t m l) :
       simp only [timeIsZero, timeAfter, TimeLike.toTime, id]
       by_cases hz : (r.ExpiresAt == 0) = true
       · simp only [hz, if_true]; exact this
-      · simp only [hz, if_false]
+      · simp only [hz]
         by_cases hlt : r.ExpiresAt < t
         · simp only [hlt, decide_true, if_true]
           rw [this, unexpired_of_record, ip_isExpired_eq]
@@ -567,7 +567,7 @@ theorem pot (cfg : RateLimitConfig) (U : Nat) (hwf : cfg.Burst * U ≤ cfg.Rate 
       admitted ((allowsOf ip es (rlRun cfg U es st)).take n) * U ≤
         Phi cfg U (st ip) t0 + cfg.Rate * (lastTime t0 ((allowsOf ip es (rlRun cfg U es st)).take n) - t0) := by
   induction es with
-  | nil => intro t0 st _ _ n; simp [allowsOf, rlRun, admitted, lastTime]
+  | nil => intro t0 st _ _ n; simp [allowsOf, admitted, lastTime]
   | cons e es ih =>
     intro t0 st hs hi n
     obtain ⟨h0, hs'⟩ := hs
